@@ -21,7 +21,7 @@ TASK: make a small change to non-test source files that makes this property FALS
  (1) `go build ./...` still succeeds;
  (2) the existing tests still pass — never edit or delete existing tests; run at least `go test -count=1` on every package you touched and on the packages that import it and look relevant (internal/agent and internal/integration are slow, run them only if you touched code they exercise);
  (3) the change looks like a plausible regression a developer could introduce (refactoring slip, off-by-one, a check lost on one path, wrong lock scope, reordered statements, wrong variable), and it is NOT something ordinary use would expose at once: it must need something specific to manifest — a particular interleaving, a fault at a particular point, a multi-step sequence of operations, an unusual input, or two cooperating sites that each look fine alone.{(" " + hint) if hint else ""}
-Then write a DEMONSTRATION: a new Go test file named zz_seed_{tag.lower()}_test.go in the relevant package that FAILS with your change and PASSES on the original code. Verify both directions yourself: run it with the change (must fail), then revert only the source change (e.g. `git stash push -- <source files>`; keep the test file) and run it again (must pass), then re-apply the change.
+Then write a DEMONSTRATION: a new Go test file named zz_seed_{tag.lower()}_test.go in the relevant package that FAILS with your change and PASSES on the original code. Verify both directions yourself: run it with the change (must fail), then revert only the source change (save it first with `git diff -- <source files> > {out}/patch.diff`, then `git checkout -- <source files>`; NEVER use `git stash` - the stash is shared with other worktrees; keep the test file) and run it again (must pass), then re-apply the change with `git apply`.
 DELIVERABLES in {out}/ : patch.diff (`git diff` of the non-test source change only, appliable with `git apply` from the repository root), a copy of the demo test file, and meta.json with keys property, summary, needs_to_manifest, files_changed, how_verified (the commands you ran and their results). Leave the worktree with the change applied and the demo test present.
 ENVIRONMENT: no network. Run `export GOFLAGS=-mod=mod GOPROXY=off` before go commands. Keep any scratch files inside {wt} or {out}.
 FINAL REPLY: at most 8 lines: what you changed, why the existing tests miss it, what it needs to manifest.""")
